@@ -845,23 +845,26 @@ fn step_inner(s: &mut Sess, toks: &[&str]) -> Option<String> {
             s.halted = txt.starts_with("panic");
             Some(format!("{} | {}", txt, s.fmt_enc()))
         }
-        ["encap_frag", pdu, ctx, buf, reg] => {
+        ["encap_frag", pdu, ctx, buf, reg, cout] => {
             let pdu = s.parse_bs(pdu)?;
             let ctx = s.parse_ctx(ctx)?;
             let pre = s.parse_bs(buf)?;
             let reg: usize = reg.parse().ok()?;
+            let cout: usize = cout.parse().ok()?;
             let mut b = pre.clone();
             let enc = &s.enc;
             let r = catch_unwind(AssertUnwindSafe(|| enc.encap_frag(&pdu, &ctx, &mut b))).map_err(|_| ());
             let (txt, n, c) = fmt_enc_res(&pre, &r, &b);
             s.regs.insert(reg, Reg { data: b, n });
-            match c {
-                Some(c) => {
-                    s.ctxs.insert(reg, c);
+            // chain register: advanced on a fragment, erased on completion, kept on error
+            match (&r, c) {
+                (Ok(Ok(_)), Some(c)) => {
+                    s.ctxs.insert(cout, c);
                 }
-                None => {
-                    s.ctxs.remove(&reg);
+                (Ok(Ok(_)), None) => {
+                    s.ctxs.remove(&cout);
                 }
+                _ => (),
             }
             s.halted = txt.starts_with("panic");
             Some(format!("{} | {}", txt, s.fmt_enc()))
@@ -951,8 +954,12 @@ fn step_inner(s: &mut Sess, toks: &[&str]) -> Option<String> {
                 Ok(Err(e)) => Some(format!("err {} | {}", s.fmt_mem_err(&e), s.fmt_dec())),
             }
         }
-        ["decap", bs] => {
+        ["decap", bs] | ["decap_if", bs] => {
             let b = s.parse_bs(bs)?;
+            if toks[0] == "decap_if" && b.is_empty() {
+                s.dec.as_ref()?;
+                return Some("skip | -".to_string());
+            }
             let d = s.dec.as_mut()?;
             let r = catch_unwind(AssertUnwindSafe(|| d.decap(&b))).map_err(|_| ());
             let txt = s.take_dec_res(r);
@@ -995,8 +1002,11 @@ fn step_inner(s: &mut Sess, toks: &[&str]) -> Option<String> {
             }
             Some(format!("{} | {}", acc.join(" ;; "), s.fmt_dec()))
         }
-        ["peek", bs] => {
+        ["peek", bs] | ["peek_if", bs] => {
             let b = s.parse_bs(bs)?;
+            if toks[0] == "peek_if" && b.is_empty() {
+                return Some("skip | -".to_string());
+            }
             // get_label_or_frag_id is a method: use the session's decapsulator or a scratch one
             let scratch;
             let d: &Dec = match &s.dec {
